@@ -168,7 +168,11 @@ def gen_driver(root_ir, header, specs, hname="t.h"):
             for key, v in spec.config.items():
                 c, f = key.split(".", 1)
                 if re.search(r"\b" + re.escape(f) + r";", header) and re.search(r"struct " + re.escape(c) + r"\b", header):
-                    if isinstance(v, (bool, int)):
+                    # the declared C type of the field decides how it is printed
+                    mfld = re.search(r"struct " + re.escape(c) + r"\s*\{(.*?)\}", header, re.S)
+                    mty = re.search(r"(\w+)\s+" + re.escape(f) + r";", mfld.group(1)) if mfld else None
+                    is_real = (mty.group(1) in ("float", "double", "_Float16")) if mty else not isinstance(v, (bool, int))
+                    if not is_real:
                         w(f'    printf("CFG {key} %lld\\n", (long long)ctxt.{c}.{f});')
                     else:
                         w(f'    printf("CFG {key} %a\\n", (double)ctxt.{c}.{f});')
